@@ -1,5 +1,6 @@
 import Comdex.Base.Line
 import Comdex.Model.AmmPool
+import Comdex.Model.AmmKeeper
 /-! Driver for the batch-matching model (property C05).
 
 Lines (tab separated, after the sequence number):
@@ -25,6 +26,13 @@ Lines (tab separated, after the sequence number):
         real PoolBuyOrders / PoolSellOrders(NewBasicPool(rx, ry), DefaultOrderer, lowest, highest, prec); lists `price:amount,…`
         monitors pool_within_reserves / pool_not_worse_than_curve on the REAL lists
   amm.bp <fn> <rx> <ry> <price> <result|panic>      BasicPool: price, bo (BuyAmountOver), su (SellAmountUnder), bt (BuyAmountTo), st (SellAmountTo)
+  amm.k.begin <tickPrecision>                        a fresh pair on the REAL keeper (no pools)
+  amm.k.place <dir> <msgPrice> <amount> <expireAt> <ok|err> <id> <price> <offer> <batchId>
+        real MsgLimitOrder through the message router; the stored order's id / tick-fitted price / offer coin / batch id
+  amm.k.batch <now> <lastPrice|none> <currentBatchId> <orders>
+        real liquidity.EndBlocker (ExecuteRequests → ExecuteMatching, ApplyMatchResult, expiry); every stored order of the pair
+        `id:open:remaining:received:status` joined by `;` (before the next BeginBlocker prunes finished orders)
+        monitors order_within_amount, order_limit_respected on the REAL stored orders
 results := `id:open:paid:received:matched` joined by `;`, every order of the sequence, ascending id.
 Prices are Dec raws.  After every op the model continues from the REAL resulting order states.
 
@@ -39,6 +47,8 @@ open Comdex.Amm Comdex.Line
 
 structure St where
   orders : List Order := []
+  k : KState := KState.init        -- stored orders of the keeper-level sequences
+  kprec : Nat := 4
 
 def init : St := {}
 
@@ -236,6 +246,56 @@ def handle (st : St) (seq : String) (f : List String) : St × List String :=
       let m := s!"{sh v.highestBuyPrice}\t{sh v.lowestSellPrice}\t{v.buyAmountOver price}\t{v.sellAmountUnder price}"
       let r := s!"{hb}\t{ls}\t{bo}\t{su}"
       (st, if m = r then [] else [s!"DIFF\t{seq}\tmodel={m}\timpl={r}"])
+  | ["amm.k.begin", prec] =>
+    match parseNat? prec with
+    | some prec => ({ st with k := KState.init, kprec := prec }, [])
+    | none => (st, [s!"BAD\t{seq}\tk.begin"])
+  | ["amm.k.place", dir, mp, amt, exp, outcome, id, price, offer, batch] =>
+    if outcome != "ok" then (st, []) else
+    match (if dir = "1" then some Dir.buy else if dir = "2" then some Dir.sell else none), parseInt? mp, parseInt? amt, parseInt? exp with
+    | some d, some mp, some amt, some exp =>
+      let (k', so) := placeOrder st.k st.kprec d mp amt exp
+      let m := s!"{so.id}\t{so.price}\t{so.offer}\t{so.batchId}"
+      let r := s!"{id}\t{price}\t{offer}\t{batch}"
+      ({ st with k := k' }, if m = r then [] else [s!"DIFF\t{seq}\tmodel={m}\timpl={r}"])
+    | _, _, _, _ => (st, [s!"BAD\t{seq}\tk.place"])
+  | ["amm.k.batch", now, lp, bid, orders] =>
+    match parseInt? now with
+    | none => (st, [s!"BAD\t{seq}\tk.batch"])
+    | some now =>
+      let k1 := batchStep st.k st.kprec now
+      let shO := fun (l : List SOrder) => ";".intercalate (l.map fun so =>
+        s!"{so.id}:{so.openAmt}:{so.remaining}:{so.received}:{so.status.code}")
+      let shP := match k1.lastPrice with | none => "none" | some a => toString a
+      let m := s!"{shP}\t{k1.batchId}\t{shO k1.orders}"
+      let r := s!"{lp}\t{bid}\t{orders}"
+      let d := if m = r then [] else [s!"DIFF\t{seq}\tmodel={m}\timpl={r}"]
+      -- the REAL stored orders: static fields (direction, price, amount, offer coin) from the placement, the rest as dumped
+      let parts := if orders = "" then [] else orders.splitOn ";"
+      let real : Option (List SOrder) := parts.mapM fun part =>
+        match part.splitOn ":" with
+        | [id, op, rem, rcv, stc] => do
+          let id ← parseNat? id
+          let op ← parseInt? op
+          let rem ← parseInt? rem
+          let rcv ← parseInt? rcv
+          let stc ← parseNat? stc
+          let so ← k1.orders.find? (fun so => so.id == id)
+          let status := if stc = 1 then OStatus.notExecuted else if stc = 2 then .notMatched else if stc = 3 then .partiallyMatched
+            else if stc = 4 then .completed else if stc = 5 then .canceled else .expired
+          -- fills: the model's count; after a divergence the generous bound "one fill per stored order per batch"
+          let fills := if d.isEmpty then so.fills else so.fills + k1.orders.length * (k1.batchId + 1)
+          pure { so with openAmt := op, remaining := rem, received := rcv, status, fills }
+        | _ => none
+      match real with
+      | none => (st, d ++ [s!"BAD\t{seq}\tk.batch orders {orders}"])
+      | some real =>
+        let m1 := if real.all monOrderWithinAmount then [] else [s!"MON\t{seq}\torder_within_amount"]
+        let m2 := if real.all monOrderLimit then [] else [s!"MON\t{seq}\torder_limit_respected"]
+        let lpR := if lp = "none" then none else parseInt? lp
+        -- continue from the REAL state
+        let k2 : KState := prune { k1 with orders := real.map (fun so => { so with fills := (k1.orders.find? (fun x => x.id == so.id)).map (·.fills) |>.getD so.fills }), lastPrice := lpR }
+        ({ st with k := k2 }, d ++ m1 ++ m2)
   | ["amm.pool", rx, ry, lo, hi, prec, buys, sells] =>
     match parseInt? rx, parseInt? ry, parseInt? lo, parseInt? hi, parseNat? prec with
     | some rx, some ry, some lo, some hi, some prec =>
